@@ -1,4 +1,5 @@
 import QModel.Core
+import QModel.C08
 /-!
 # C09 — linear estimation (model of quara/protocol/qtomography/standard/linear_estimator.py,
 `StandardQTomographyEstimationResult.estimated_var(_sequence)`, `is_fullrank_matA`)
@@ -78,6 +79,36 @@ def estimate [Add K] [Mul K] [Sub K] [Zero K] (rank : Nat) (G : Mat K n n) (A : 
   let vs ← estSeq rank G A b [ds]
   match vs with
   | v :: _ => pure v
+  | [] => .error .index
+
+/-! ## `estimated_qoperation(_sequence)`: the template's `generate_from_var` applied to the estimates -/
+
+/-- kind of the estimated object (`qtomography._template_qoperation`) -/
+inductive Kind
+  | state | povm | gate | mprocess
+deriving Repr, DecidableEq
+
+/-- the object built from a variable vector, as rows (`to_stacked_vector` = concatenation of the rows):
+`convert_var_to_vec / _vecs / _hs / _hss` as modelled in C08; `r` = `np.sqrt(dim)`, `d2` = `dim²`, `mOut` = number of
+outcomes of the estimated POVM / measurement process -/
+def objOf [Add K] [Sub K] [Div K] [Zero K] [One K] (kind : Kind) (flag : Bool) (r : K) (d2 mOut : Nat)
+    (v : List K) : List (List K) :=
+  match kind with
+  | .state => [QM.C08.stateOf flag r v]
+  | .povm => QM.C08.povmOf flag r d2 mOut v
+  | .gate => QM.C08.gateOf flag d2 v
+  | .mprocess => (QM.C08.mprocessOf flag d2 mOut v).flatten
+
+/-- `estimated_qoperation_sequence`: one object per estimate, in order -/
+def estimatedQoperationSeq [Add K] [Sub K] [Div K] [Zero K] [One K] (kind : Kind) (flag : Bool) (r : K)
+    (d2 mOut : Nat) (vs : List (Vec K n)) : List (List (List K)) :=
+  vs.map fun v => objOf kind flag r d2 mOut v.toList
+
+/-- `estimated_qoperation`: generated from `_estimated_var_sequence[0]` -/
+def estimatedQoperation [Add K] [Sub K] [Div K] [Zero K] [One K] (kind : Kind) (flag : Bool) (r : K)
+    (d2 mOut : Nat) (vs : List (Vec K n)) : Except Err (List (List K)) :=
+  match vs with
+  | v :: _ => .ok (objOf kind flag r d2 mOut v.toList)
   | [] => .error .index
 
 /-- same value with the product associated to the right (`G · (Aᵀ · (f − b))`): what the driver runs for
@@ -208,6 +239,21 @@ def handle (args : List String) : Option String :=
       match estimate rank G A b ds with
       | .ok v => some s!"ok {showVec v}"
       | .error e => some s!"err {e.toString}"
+  -- estobj kind flag r d2 mOut m n rank G A b seq → the objects of estimated_qoperation_sequence (stacked vectors)
+  | ["estobj", kind, flag, r, d2, mOut, m, n, rank, G, A, b, seq] => do
+      let kind ← (match kind with
+        | "qst" => some Kind.state | "povmt" => some Kind.povm | "qpt" => some Kind.gate | "qmpt" => some Kind.mprocess
+        | _ => none)
+      let flag ← (if flag = "1" then some true else if flag = "0" then some false else none)
+      let r ← parseRat? r; let d2 ← parseNat? d2; let mOut ← parseNat? mOut
+      let m ← parseNat? m; let n ← parseNat? n; let rank ← parseNat? rank
+      let G ← parseMat? n n G; let A ← parseMat? m n A; let b ← parseVec? m b
+      let seq ← parseSeq? seq
+      match estSeq rank G A b seq with
+      | .error e => some s!"err {e.toString}"
+      | .ok vs =>
+        let objs := estimatedQoperationSeq kind flag r d2 mOut vs
+        some ("ok " ++ (if objs.isEmpty then "_" else "|".intercalate (objs.map fun o => showList showRat o.flatten)))
   -- right-associated product on flat data vectors (large shapes)
   | ["estfast", m, n, G, A, b, fs] => do
       let m ← parseNat? m; let n ← parseNat? n
